@@ -8,6 +8,7 @@ R3 entry points (constructor, update, from_json, name setter) reach the validato
 R4 validator tables are keyed by declared fields; direct stores to validated fields outside _set_fields copy the
    same field of another value
 R5 size / validity tests precede the store and measure what is stored (JSONData, boot script, tags)
+R6 the range validators (LAMBDA_VALIDATORS) order numeric values only (int(...), constants), never text
 """
 import ast
 import re
@@ -16,7 +17,10 @@ try:
 except ImportError:                     # pragma: no cover
     import sre_parse
 
-from ..core import AnalysisError, Unfoldable, norm, loc, walk_no_nested, attr_chain, call_name
+from ..core import AnalysisError, Unfoldable, norm, loc, walk_no_nested, attr_chain, call_name, func_params, kwarg
+from ..cfg import CFG
+from ..normalize import inline, local_env, expand, canon, ctext, conjuncts, branch_values, merge_outcomes, Unknown
+from .. import flow
 
 LABELS = 'fim.slivers.capacities_labels:Labels'
 CAPS = 'fim.slivers.capacities_labels:Capacities'
@@ -62,7 +66,7 @@ def run(prog, rep):
         'opcode; example matches); the constructors, update, from_json and setters are checked to route through the '
         'validating setter before the store; size checks are checked to measure the value that is stored. Whether a '
         'particular string belongs to a format is not decided.')
-    rep.rule('R1', 'validator regex applied with full-match semantics', floor=4)
+    rep.rule('R1', 'validator regex applied with full-match semantics', floor=3)
     rep.rule('R2', 'validator pattern has no unescaped wildcard and matches its documented example', floor=20)
     rep.rule('R3', 'entry point reaches the validator before the store; forgiving only in the unknown-field handler',
              floor=12)
@@ -272,55 +276,144 @@ def run(prog, rep):
                 rep.violation('R3', loc(jf.module, n), 'JSONField.update', norm(n),
                               'update stores caller-supplied values with __setattr__, bypassing validation')
 
-    # Labels._set_fields: validators precede the store
-    sf = labels.methods.get('_set_fields')
-    tries = [n for n in ast.walk(sf) if isinstance(n, ast.Try)]
-    if len(tries) != 1:
-        raise AnalysisError('Labels._set_fields: expected exactly one try block')
-    body = tries[0].body
-    idx_store = None
-    idx_regex = None
-    idx_lambda = None
-    for i, st in enumerate(body):
-        txt = ast.unparse(st)
-        if isinstance(st, ast.Expr) and isinstance(st.value, ast.Call) and call_name(st.value) == '__setattr__':
-            idx_store = i
-        if isinstance(st, ast.If) and 'self.VALIDATORS' in ast.unparse(st.test):
-            idx_regex = i
-            # both the list branch and the scalar branch must validate and raise
-            raises = [x for x in ast.walk(st) if isinstance(x, ast.Raise)]
-            rcalls = [x for x in ast.walk(st) if isinstance(x, ast.Call) and isinstance(x.func, ast.Attribute)
-                      and x.func.attr in ('match', 'fullmatch', 'search')]
-            rep.instance('R3', f'Labels._set_fields: regex validation block has {len(rcalls)} applications, {len(raises)} raises')
-            if len(raises) < 2 or len(rcalls) < 2:
-                rep.violation('R3', loc(lmod, st), 'Labels._set_fields', 'regex validation incomplete',
-                              'the scalar or the list form of a label value is no longer checked against its pattern')
-        if isinstance(st, ast.If) and 'self.LAMBDA_VALIDATORS' in ast.unparse(st.test):
-            idx_lambda = i
-            raises = [x for x in ast.walk(st) if isinstance(x, ast.Raise)]
-            rep.instance('R3', f'Labels._set_fields: range validation block has {len(raises)} raises')
-            if len(raises) < 2:
-                rep.violation('R3', loc(lmod, st), 'Labels._set_fields', 'range validation incomplete',
-                              'the scalar or the list form of a label value is no longer range-checked')
-    if idx_store is None or idx_regex is None or idx_lambda is None:
-        raise AnalysisError('Labels._set_fields: validation/store statements not found in the recognised shape')
-    rep.instance('R3', f'Labels._set_fields: order regex={idx_regex} range={idx_lambda} store={idx_store}')
-    if not (idx_regex < idx_store and idx_lambda < idx_store):
-        rep.violation('R3', loc(lmod, body[idx_store]), 'Labels._set_fields', 'store precedes validation',
-                      'the field is stored before it is validated: a rejected value stays in the object')
+    # Labels._set_fields: on every path to the store the value has gone through the regex and the range validator of its field
+    sf0 = labels.methods.get('_set_fields')
+    sf = inline(prog, labels, sf0)
+    cfg = CFG(sf)
+    dom = cfg.dominators()
+    stores = [n for n in cfg.nodes if n.kind == 'stmt' and n.ast is not None and
+              any(isinstance(c, ast.Call) and call_name(c) in ('__setattr__', 'setattr') for c in walk_no_nested(n.ast))]
+    if len(stores) != 1:
+        raise AnalysisError('Labels._set_fields: field store not found')
+    store = stores[0]
+
+    def derived(markers):
+        """locals whose value derives from an expression mentioning one of the marker attributes (tuple unpacking, loop targets followed)"""
+        names = set()
+        changed = True
+
+        def mentions(e):
+            return any((isinstance(x, ast.Attribute) and x.attr in markers) or (isinstance(x, ast.Name) and x.id in names) for x in ast.walk(e))
+        while changed:
+            changed = False
+            for n in walk_no_nested(sf):
+                tgts, val = [], None
+                if isinstance(n, ast.Assign):
+                    tgts, val = n.targets, n.value
+                elif isinstance(n, ast.For):
+                    tgts, val = [n.target], n.iter
+                if val is not None and mentions(val):
+                    for t in tgts:
+                        for x in ast.walk(t):
+                            if isinstance(x, ast.Name) and x.id not in names:
+                                names.add(x.id)
+                                changed = True
+        return names, mentions
+    for table, what, kind in (('VALIDATORS', 'regex', 'regex'), ('LAMBDA_VALIDATORS', 'range', 'range')):
+        names, mentions = derived({table})
+        guards = [t for t in cfg.nodes if t.kind == 'test' and t.tag == 'if' and any(isinstance(x, ast.Attribute) and x.attr == table for x in ast.walk(expand(t.ast, local_env(sf))))]
+        if kind == 'regex':
+            apps = [c for c in walk_no_nested(sf) if isinstance(c, ast.Call) and isinstance(c.func, ast.Attribute) and c.func.attr in ('match', 'fullmatch', 'search')
+                    and (mentions(c) or mentions(c.func.value))]
+        else:
+            apps = [c for c in walk_no_nested(sf) if isinstance(c, ast.Call) and (mentions(c.func)) and c.args
+                    and not (isinstance(c.func, ast.Attribute) and c.func.attr in ('get', 'keys', 'items', 'values', 'format'))]
+        app_nodes = {flow.node_of(cfg, c).id for c in apps if flow.node_of(cfg, c) is not None}
+        # loops whose body applies the validator count as applying it to every element
+        for l in cfg.nodes:
+            if l.kind == 'test' and l.tag == 'for' and any(any(x is c for x in ast.walk(l.ast)) for c in apps):
+                app_nodes.add(l.id)
+        raises_ok = all(any(isinstance(x, ast.Raise) for p_ in _stmt_ancestors(c, sf) if isinstance(p_, (ast.If, ast.For)) for x in ast.walk(p_)) for c in apps)
+        rep.instance('R3', f'Labels._set_fields: {what} validation: guard {[norm(g.ast, 50) for g in guards]}, {len(apps)} application(s)')
+        if not guards or not apps or not raises_ok:
+            rep.violation('R3', loc(lmod, sf0), 'Labels._set_fields', f'{what} validation incomplete',
+                          f'the scalar or the list form of a label value is no longer checked against its {what} validator')
+            continue
+        g = guards[0]
+        if g.id not in dom.get(store.id, set()):
+            rep.violation('R3', loc(lmod, store.ast), 'Labels._set_fields', 'store precedes validation',
+                          'the field is stored before it is validated: a rejected value stays in the object')
+            continue
+        # from the "field has a validator" edge, no path reaches the store without applying the validator
+        tr = [s_ for s_, ek in g.succ if ek == 't']
+        fa = [s_ for s_, ek in g.succ if ek == 'f']
+        positive = not (isinstance(canon(g.ast), ast.Compare) and isinstance(canon(g.ast).ops[0], (ast.NotIn,))) and \
+            not (isinstance(canon(g.ast), ast.Compare) and isinstance(canon(g.ast).ops[0], ast.Is))
+        start = (tr if positive else fa)
+        if start and cfg.paths_avoiding(start[0], store, app_nodes):
+            rep.violation('R3', loc(lmod, g.ast), 'Labels._set_fields', f'{what} validation incomplete',
+                          f'for a field that has a {what} validator there is a path to the store on which the validator is not applied '
+                          f'(the scalar or the list form of the value goes unchecked)')
+    # R6: range validators order numbers, not text
+    rep.rule('R6', 'range validators compare numeric values', floor=5)
+
+    def numeric(e):
+        if isinstance(e, ast.Constant):
+            return isinstance(e.value, (int, float)) and not isinstance(e.value, bool)
+        if isinstance(e, ast.Call) and isinstance(e.func, ast.Name) and e.func.id in ('int', 'float', 'len', 'abs', 'ord', 'min', 'max', 'sum'):
+            return True
+        if isinstance(e, ast.BinOp):
+            return numeric(e.left) and numeric(e.right)
+        if isinstance(e, ast.UnaryOp) and isinstance(e.op, (ast.USub, ast.UAdd)):
+            return numeric(e.operand)
+        return False
+    for k_, v_ in zip(lambdas_expr.keys, lambdas_expr.values):
+        lam = [x for x in ast.walk(v_) if isinstance(x, ast.Lambda)]
+        if not lam or not isinstance(k_, ast.Constant):
+            raise AnalysisError('Labels.LAMBDA_VALIDATORS: entry is not (lambda, description)')
+        cmps = [c for c in ast.walk(lam[0].body) if isinstance(c, ast.Compare) and any(isinstance(o, (ast.Lt, ast.LtE, ast.Gt, ast.GtE)) for o in c.ops)]
+        rep.instance('R6', f'LAMBDA_VALIDATORS[{k_.value!r}]: {len(cmps)} ordering comparison(s)')
+        for c in cmps:
+            bad = [o for o in [c.left] + c.comparators if not numeric(o)]
+            if bad:
+                rep.violation('R6', loc(lmod, c), 'Labels.LAMBDA_VALIDATORS', f'{k_.value}: orders {norm(bad[0], 50)}',
+                              f'the range validator of {k_.value!r} orders {norm(bad[0], 50)}, which is text, not a number: text is ordered '
+                              f'character by character ("100" < "20"), so valid ranges are rejected and reversed ones accepted')
     # Capacities._set_fields: the non-negative int asserts precede the store
     caps = prog.cls(CAPS)
-    csf = caps.methods.get('_set_fields')
-    asserts = [n for n in ast.walk(csf) if isinstance(n, ast.Assert)]
-    stores = [n for n in ast.walk(csf) if isinstance(n, ast.Call) and call_name(n) == '__setattr__']
-    atxt = ' ; '.join(ast.unparse(a.test) for a in asserts)
-    rep.instance('R3', f'Capacities._set_fields: asserts [{atxt}] before {len(stores)} store(s)')
-    if 'isinstance(v, int)' not in atxt or '>= 0' not in atxt.replace('v>=0', 'v >= 0'):
-        rep.violation('R3', loc(caps.module, csf), 'Capacities._set_fields', 'non-negative int assertion missing',
+    csf0 = caps.methods.get('_set_fields')
+    csf = inline(prog, caps, csf0)
+    ccfg = CFG(csf)
+    cdom = ccfg.dominators()
+    cstores = [n for n in ccfg.nodes if n.kind == 'stmt' and n.ast is not None and any(isinstance(c, ast.Call) and call_name(c) in ('__setattr__', 'setattr')
+                                                                                   for c in walk_no_nested(n.ast))]
+    atests = [n for n in ccfg.nodes if n.kind == 'test' and n.tag == 'assert']
+
+    def asserts_int(t):
+        return any(isinstance(c, ast.Call) and isinstance(c.func, ast.Name) and c.func.id == 'isinstance' and len(c.args) == 2 and ast.unparse(c.args[1]) == 'int'
+                   for c in ast.walk(t))
+
+    def asserts_nonneg(t):
+        for cj in [x for x in ast.walk(canon(t)) if isinstance(x, ast.Compare)]:
+            if len(cj.ops) == 1 and isinstance(cj.ops[0], ast.LtE) and isinstance(cj.left, ast.Constant) and cj.left.value == 0:
+                return True
+        return False
+    rep.instance('R3', f'Capacities._set_fields: asserts {[norm(a_.ast, 40) for a_ in atests]} before {len(cstores)} store(s)')
+    int_ok = [a_ for a_ in atests if asserts_int(a_.ast)]
+    nn_ok = [a_ for a_ in atests if asserts_nonneg(a_.ast)]
+    if not int_ok or not nn_ok:
+        rep.violation('R3', loc(caps.module, csf0), 'Capacities._set_fields', 'non-negative int assertion missing',
                       'Capacities no longer asserts that every value is a non-negative int')
-    elif stores and asserts and max(a.lineno for a in asserts) > min(s.lineno for s in stores):
-        rep.violation('R3', loc(caps.module, csf), 'Capacities._set_fields', 'store precedes assertion',
-                      'Capacities stores the value before asserting it is a non-negative int')
+    else:
+        def cap_sink(st):
+            if isinstance(st, ast.Expr) and isinstance(st.value, ast.Call) and call_name(st.value) in ('__setattr__', 'setattr') and len(st.value.args) >= 2:
+                return st.value.args[-1]
+            return None
+        loops_ = [l for l in walk_no_nested(csf) if isinstance(l, ast.For) and any(cap_sink(x) is not None for x in ast.walk(l) if isinstance(x, ast.stmt))]
+        if not loops_:
+            raise AnalysisError('Capacities._set_fields: field loop not found')
+        try:
+            couts = branch_values(loops_[0].body, cap_sink, follow_loops=True)
+        except Unknown as u:
+            raise AnalysisError(f'Capacities._set_fields not analysable: {u}')
+        for o in couts:
+            vname = ctext(o.value)
+            none_path = any(ctext(n) == f'{vname} is None' for n in o.cond_nodes)
+            has_int = any(asserts_int(n) for n in o.cond_nodes)
+            has_nn = any(asserts_nonneg(n) for n in o.cond_nodes)
+            if not none_path and not (has_int and has_nn):
+                rep.violation('R3', loc(caps.module, o.stmt), 'Capacities._set_fields', 'store precedes assertion',
+                              'Capacities stores the value before asserting it is a non-negative int')
 
     # Tags: constructor checks each tag before appending; from_json goes through the constructor
     tinit = tags.methods.get('__init__')
@@ -347,27 +440,33 @@ def run(prog, rep):
         rep.violation('R3', loc(tags.module, chk), 'Tags._check', 'type/raise missing', 'Tags._check no longer rejects')
 
     # set_name: check before store; set_property/set_properties dispatch through the setters
-    sn = base.methods.get('set_name')
-    store_line = None
-    check_line = None
-    for n in ast.walk(sn):
-        if isinstance(n, ast.Assign) and any(ast.unparse(t) == 'self.resource_name' for t in n.targets):
-            store_line = n.lineno
-        if isinstance(n, ast.Raise):
-            check_line = n.lineno
-    rep.instance('R3', f'BaseSliver.set_name: raise@{check_line} store@{store_line}')
-    if store_line is None or check_line is None or check_line > store_line:
-        rep.violation('R3', loc(base.module, sn), 'BaseSliver.set_name', 'name stored before / without validation',
-                      'set_name stores the name before (or without) matching it against NAME_REGEX')
+    sn0 = base.methods.get('set_name')
+    sn = inline(prog, base, sn0)
+    ncfg = CFG(sn)
+    ndom = ncfg.dominators()
+    nstore = [n for n in ncfg.nodes if n.kind == 'stmt' and isinstance(n.ast, ast.Assign) and any(ast.unparse(t) == 'self.resource_name' for t in n.ast.targets)]
+    napps = [c for c in regex_calls(sn)]
+    nraise = [n for n in ncfg.nodes if n.kind == 'stmt' and n.tag == 'raise']
+    rep.instance('R3', f'BaseSliver.set_name: {len(napps)} pattern application(s), store {norm(nstore[0].ast) if nstore else None}')
+    okn = bool(nstore) and bool(napps) and bool(nraise)
+    if okn:
+        an = [flow.node_of(ncfg, c) for c in napps]
+        okn = any(a_ is not None and a_.id in ndom.get(nstore[0].id, set()) for a_ in an) and not any(r.id in ndom.get(nstore[0].id, set()) for r in nraise)
+    if not okn:
+        rep.violation('R3', loc(base.module, sn0), 'BaseSliver.set_name', 'name stored before / without validation',
+                      'set_name stores the name on a path on which it was not matched against NAME_REGEX of the sliver class (e.g. the match '
+                      'is skipped under some condition): a name that this class must reject is accepted')
     for c in prog.subclasses(base, strict=True):
         if 'set_name' in c.methods:
             rep.violation('R3', loc(c.module, c.methods['set_name']), f'{c.name}.set_name', 'override of set_name',
                           f'{c.name} overrides set_name; the override is not known to validate the name')
     for mname in ('set_property', 'set_properties'):
-        fn = base.methods.get(mname)
-        txt = ast.unparse(fn)
-        rep.instance('R3', f'BaseSliver.{mname} dispatches through set_<name>')
-        if "'set_' +" not in txt and '"set_" +' not in txt:
+        fn = inline(prog, base, base.methods.get(mname))
+        denv = local_env(fn)
+        disp = [c for c in walk_no_nested(fn) if isinstance(c, ast.Call) and call_name(c) in ('__getattribute__', 'getattr') and
+                any(isinstance(x, ast.Constant) and isinstance(x.value, str) and x.value.startswith('set_') for a_ in c.args for x in ast.walk(expand(a_, denv)))]
+        rep.instance('R3', f'BaseSliver.{mname} dispatches through set_<name>: {[norm(c, 60) for c in disp]}')
+        if not disp:
             rep.violation('R3', loc(base.module, fn), f'BaseSliver.{mname}', 'does not dispatch through setters',
                           f'{mname} no longer dispatches through the set_<name> methods (validation lives there)')
 
@@ -376,78 +475,108 @@ def run(prog, rep):
     ji = jd.methods.get('__init__')
     if ji is None:
         raise AnalysisError('JSONData.__init__ vanished')
-    # find the branches: each branch that stores self._data from caller data must compare len(<stored>) with MAX_SIZE
-    def branch_info(stmts):
-        stored = None
+    ji0 = ji
+    ji = inline(prog, jd, ji0)
+    jenv = local_env(ji)
+    jcfg = CFG(ji)
+    jdom = jcfg.dominators()
+    jstores = [n for n in jcfg.nodes if n.kind == 'stmt' and isinstance(n.ast, ast.Assign) and any(ast.unparse(t) == 'self._data' for t in n.ast.targets)
+               and not isinstance(n.ast.value, ast.Constant)]
+    if not jstores:
+        raise AnalysisError('JSONData.__init__: no store of caller data into _data')
+
+    def size_tests():
+        """[(cfg node of the test, text of the measured expression)] for `MAX_SIZE < len(E)` tests that guard a raise"""
+        out = []
+        for t in jcfg.nodes:
+            if t.kind != 'test' or t.tag != 'if':
+                continue
+            c = canon(expand(t.ast, jenv))
+            for cj in conjuncts(c):
+                if isinstance(cj, ast.Compare) and len(cj.ops) == 1 and isinstance(cj.ops[0], (ast.Lt, ast.LtE)):
+                    l, r = cj.left, cj.comparators[0]
+                    if any(isinstance(x, ast.Attribute) and x.attr == 'MAX_SIZE' for x in ast.walk(l)) and isinstance(r, ast.Call) and \
+                            isinstance(r.func, ast.Name) and r.func.id == 'len' and r.args:
+                        if any(isinstance(x, ast.Raise) for x in ast.walk(t.ast._parent)):
+                            out.append((t, ctext(r.args[0])))
+        return out
+    tests = size_tests()
+    for sn_ in jstores:
+        stored = sn_.ast.value
+        stxt = ctext(stored, jenv)
+        # the size test measures the stored text: before the store (same expression) or after it (self._data or the same expression)
+        ok_size = False
         measured = []
-        order_ok = True
-        store_line = None
-        for st in stmts:
-            for n in ast.walk(st):
-                if isinstance(n, ast.Assign) and any(ast.unparse(t) == 'self._data' for t in n.targets):
-                    stored = n.value
-                    store_line = n.lineno
-                if isinstance(n, ast.Compare) and 'MAX_SIZE' in ast.unparse(n):
-                    for c in ast.walk(n):
-                        if isinstance(c, ast.Call) and isinstance(c.func, ast.Name) and c.func.id == 'len' and c.args:
-                            measured.append((ast.unparse(c.args[0]), n.lineno))
-        return stored, measured, store_line
-    top_if = [s for s in ji.body if isinstance(s, ast.If)]
-    if len(top_if) != 1:
-        raise AnalysisError('JSONData.__init__: expected one if/elif/else chain')
-    chain = []
-    cur = top_if[0]
-    while True:
-        chain.append((cur.test, cur.body))
-        if len(cur.orelse) == 1 and isinstance(cur.orelse[0], ast.If):
-            cur = cur.orelse[0]
-        else:
-            chain.append((None, cur.orelse))
-            break
-    for test, body in chain:
-        stored, measured, store_line = branch_info(body)
-        if stored is None:
-            continue
-        if isinstance(stored, ast.Constant):
-            continue    # default "{}"
-        stxt = ast.unparse(stored)
-        rep.instance('R5', f'JSONData.__init__[{norm(test, 50) if test is not None else "else"}]: stores {stxt[:40]}, '
-                           f'measures {[m for m, _ in measured]}')
-        if not measured:
-            rep.violation('R5', loc(jd.module, body[0]), 'JSONData.__init__', f'branch storing {stxt[:40]} has no size test',
+        for t, mtxt in tests:
+            before = t.id in jdom.get(sn_.id, set())
+            after = sn_.id in jdom.get(t.id, set())
+            measured.append(mtxt)
+            if (before and mtxt == stxt) or (after and mtxt in ('self._data', stxt)):
+                ok_size = True
+        rep.instance('R5', f'JSONData.__init__: stores {stxt[:40]}, size tests measure {sorted(set(measured))}')
+        if not tests or not any(t.id in jdom.get(sn_.id, set()) or sn_.id in jdom.get(t.id, set()) for t, _ in tests):
+            rep.violation('R5', loc(jd.module, sn_.ast), 'JSONData.__init__', f'branch storing {stxt[:40]} has no size test',
                           f'the branch storing {stxt} into _data no longer compares its length with MAX_SIZE')
-            continue
-        for mtxt, mline in measured:
-            # measured must be the stored string: either the same name (string branch) or self._data (object branch)
-            if isinstance(stored, ast.Name):
-                ok = mtxt == stored.id or mtxt == 'self._data'
-                if ok and mtxt == stored.id and mline > store_line:
-                    ok = True
-            else:
-                ok = mtxt == 'self._data' and mline >= store_line
-            if not ok:
-                rep.violation('R5', loc(jd.module, body[0]), 'JSONData.__init__',
-                              f'measures len({mtxt}) but stores {stxt[:40]}',
-                              f'the size limit is checked on len({mtxt}) while the stored text is {stxt}: the limit no '
-                              f'longer bounds the stored encoding')
-    # validity (json.loads) on the string branch
-    if 'json.loads(data)' not in ast.unparse(ji):
-        rep.violation('R5', loc(jd.module, ji), 'JSONData.__init__', 'no JSON validity test',
-                      'a JSON string is stored without being parsed first')
+        elif not ok_size:
+            rep.violation('R5', loc(jd.module, sn_.ast), 'JSONData.__init__', f'measures len of {sorted(set(measured))} but stores {stxt[:40]}',
+                          f'the size limit is checked on another value than the text that is stored ({stxt}): the limit no '
+                          f'longer bounds the stored encoding')
+        # validity: a text taken as is must have been parsed; an encoding produced by json.dumps is valid by construction
+        encoded = isinstance(stored, ast.Call) and call_name(stored) == 'dumps'
+        if not encoded:
+            parses = [c for c in walk_no_nested(ji) if isinstance(c, ast.Call) and call_name(c) == 'loads' and c.args and ctext(c.args[0], jenv) == stxt]
+            pn = [flow.node_of(jcfg, c) for c in parses]
+            rep.instance('R5', f'JSONData.__init__: text {stxt[:30]} parsed before it is stored: {bool(pn)}')
+            if not any(x is not None and x.id in jdom.get(sn_.id, set()) for x in pn):
+                rep.violation('R5', loc(jd.module, sn_.ast), 'JSONData.__init__', 'no JSON validity test',
+                              'a JSON string is stored without being parsed first')
     for c in prog.subclasses(jd, strict=True):
         rep.instance('R5', f'{c.name}.MAX_SIZE')
         owner, e = c.find_assign('MAX_SIZE')
         if owner is None:
             rep.violation('R5', loc(c.module, c.node), c.name, 'no MAX_SIZE', f'{c.name} defines no MAX_SIZE')
-    sb = base.methods.get('set_boot_script')
-    stxt = ast.unparse(sb)
-    rep.instance('R5', 'BaseSliver.set_boot_script: size assertion before store')
-    asserts = [n for n in ast.walk(sb) if isinstance(n, ast.Assert)]
-    stores = [n for n in ast.walk(sb) if isinstance(n, ast.Assign)]
-    if not asserts or 'len(boot_script)' not in ast.unparse(asserts[0]) or 'BOOST_SCRIPT_SIZE' not in ast.unparse(asserts[0]) \
-            or (stores and asserts[0].lineno > stores[0].lineno):
-        rep.violation('R5', loc(base.module, sb), 'BaseSliver.set_boot_script', 'size assertion missing or after the store',
+    sb0 = base.methods.get('set_boot_script')
+    sb = inline(prog, base, sb0)
+    bparam = [p_ for p_ in func_params(sb) if p_ != 'self'][0]
+
+    def bs_sink(st):
+        if isinstance(st, ast.Assign) and any(ast.unparse(t) == 'self.boot_script' for t in st.targets):
+            return st.value
+        return None
+    try:
+        bouts = branch_values(sb.body, bs_sink)
+    except Unknown as u:
+        raise AnalysisError(f'set_boot_script not analysable: {u}')
+
+    def is_size(c):
+        return isinstance(c, ast.Compare) and len(c.ops) == 1 and isinstance(c.ops[0], ast.Lt) and isinstance(c.left, ast.Call) and \
+            isinstance(c.left.func, ast.Name) and c.left.func.id == 'len' and c.left.args and isinstance(c.left.args[0], ast.Name) and \
+            c.left.args[0].id == bparam and any(isinstance(x, ast.Attribute) and x.attr == 'BOOST_SCRIPT_SIZE' for x in ast.walk(c.comparators[0]))
+
+    def is_none(c):
+        return ctext(c) == f'{bparam} is None'
+
+    def implies_bound(c):
+        """does condition c guarantee: the script is None or shorter than the limit?"""
+        c = canon(c)
+        if is_none(c) or is_size(c):
+            return True
+        if isinstance(c, ast.BoolOp) and isinstance(c.op, ast.And):
+            return any(implies_bound(v) for v in c.values)
+        if isinstance(c, ast.BoolOp) and isinstance(c.op, ast.Or):
+            return all(implies_bound(v) for v in c.values)
+        return False
+    rep.instance('R5', f'BaseSliver.set_boot_script: {len(bouts)} path(s) to the store, conditions {[o.conds for o in bouts]}')
+    if not bouts or not all(any(implies_bound(n) for n in o.cond_nodes) for o in bouts):
+        rep.violation('R5', loc(base.module, sb0), 'BaseSliver.set_boot_script', 'size assertion missing or after the store',
                       'set_boot_script no longer asserts the script length before storing it')
+
+
+def _stmt_ancestors(node, fn):
+    p = getattr(node, '_parent', None)
+    while p is not None and p is not fn:
+        yield p
+        p = getattr(p, '_parent', None)
 
 
 def _holds_labels(cls):
